@@ -138,22 +138,30 @@ def headAct : ActName → Bool
 
 def hasAct (a : ActName) (cs : List Call) : Bool := cs.any fun c => c.act == a
 
-/-- a keep list: only head actions; a tag is created together with its token part start; the kind of
-tag created fits the phase -/
+def Pat.isSpecial' : Pat → Bool
+  | .chSeq .. => true
+  | .eoc => true
+  | .eof => true
+  | _ => false
+
+def actsOf (cs : List Call) : List ActName := cs.map (·.act)
+
+/-- a keep list is one of the canonical ones: nothing; `update_tag_name_hash`; or
+`create_*_tag; start_token_part; update_tag_name_hash` (start tag after `<`, end tag after `</`) -/
 def keepCallsOk (ph : Phase) (cs : List Call) : Bool :=
   cs.all (fun c => headAct c.act) &&
   (match ph with
-   | .lt => !hasAct .createEndTag cs && (hasAct .createStartTag cs == hasAct .startTokenPart cs)
-   | .slash => !hasAct .createStartTag cs && (hasAct .createEndTag cs == hasAct .startTokenPart cs)
-   | .name => !hasAct .createStartTag cs && !hasAct .createEndTag cs && !hasAct .startTokenPart cs)
+   | .lt => actsOf cs == [] || actsOf cs == [.createStartTag, .startTokenPart, .updateTagNameHash]
+   | .slash => actsOf cs == [] || actsOf cs == [.createEndTag, .startTokenPart, .updateTagNameHash]
+   | .name => actsOf cs == [.updateTagNameHash])
 
 def finishCalls (cs : List Call) : Bool :=
   cs == [⟨.finishTagName, true⟩] || cs == [⟨.finishTagName, true⟩, ⟨.emitTag, true⟩]
 
-def seqPair (S : SLabels) (L : Labels) (ph : Phase) (q q' : ActSeq) : Bool :=
+def seqPair (S : SLabels) (L : Labels) (ph : Phase) (inIte : Bool) (q q' : ActSeq) : Bool :=
   match tsCalls q.calls with
   | .keep =>
-    q'.calls == q.calls && keepCallsOk ph q.calls &&
+    !inIte && q'.calls == q.calls && keepCallsOk ph q.calls &&
     (match q.trans, q'.trans with
      | none, none => true
      | some (.goto j), some (.goto j') => S.at j == j' && (match L.at j with
@@ -172,12 +180,13 @@ def armPair (S : SLabels) (L : Labels) (ph : Phase) (a : Arm) (a' : Option Arm) 
     | none => false
     | some a' =>
       match a.body, a'.body with
-      | .seq q, .seq q' => seqPair S L ph q q'
-      | .ite c x y, .ite c' x' y' => c == .isAppropriateEndTag && c' == .isAppropriateEndTag && seqPair S L ph x x' && seqPair S L ph y y'
+      | .seq q, .seq q' => seqPair S L ph false q q'
+      | .ite c x y, .ite c' x' y' => c == .isAppropriateEndTag && c' == .isAppropriateEndTag && seqPair S L ph true x x' && seqPair S L ph true y y'
       | _, _ => false
 
 def headPairOk (t : Table) (S : SLabels) (L : Labels) (s : StateId) (sd : StateDef) (ph : Phase) : Bool :=
   sd.enter.isEmpty &&
+  sd.arms.all (fun a => !a.pat.isSpecial' || a.body.seqs.all (fun q => !hasAct .finishTagName q.calls)) &&
   (match t.state? (S.at s) with
    | none => false
    | some sd' =>
@@ -189,11 +198,13 @@ def headPairOk (t : Table) (S : SLabels) (L : Labels) (s : StateId) (sd : StateD
        | some a => armPair S L ph a (findArm t c0 (some (UInt8.ofNat n)) sd'.arms))
 
 def markStateOk (t : Table) (S : SLabels) (T : TLabels) (i : StateId) (sd : StateDef) : Bool :=
+  !hasAct .finishTagName sd.enter &&
   sd.arms.all fun a => a.body.seqs.all fun q =>
-    tsCalls q.calls != .mark ||
+    !hasAct .finishTagName q.calls &&
+    (tsCalls q.calls != .mark ||
     (match a.body, q.trans, T.at i with
      | .seq _, some (.goto j), some tt => ltOf t (t.textState tt) == some (S.at j) && ttCalls q.calls (some tt) == some tt
-     | _, _, _ => false)
+     | _, _, _ => false))
 
 def relexStateOk (t : Table) (S : SLabels) (L : Labels) (T : TLabels) (i : StateId) (sd : StateDef) : Bool :=
   match L.at i with
